@@ -69,3 +69,19 @@ Proof.
   - repeat constructor; try (intros ?; discriminate); vm_compute; reflexivity.
   - eexists. vm_compute. reflexivity.
 Qed.
+
+(** AT BYTE LEVEL (Io.v, the model of every seek / read / write the calls perform, tied to the crate
+    by an exact event-by-event comparison of I/O traces): from the byte-level creation of a map of
+    any type and table size, any history of well-formed calls - with headroom below the 64-bit
+    limits at every state ([sized], decidable) - run with byte-level I/O returns exactly the ideal
+    map's results, and the three files are at the end [render] of a well-formed record-level state
+    representing the ideal map. *)
+From Aby Require Import Load Load_all Io Io_base Io_run Io_proofs.
+Theorem C01_byte_level_history : forall t n bk bv bh ops,
+  1 <= n -> Forall (op_wf t) ops -> sized (create t n) ops ->
+  exists m0 m' s',
+    Io.create t n bk bv bh = Ok m0 /\
+    store_run (create t n) ops = Ok (s', snd (spec_run ∅ ops)) /\
+    io_run m0 ops = Ok (m', snd (spec_run ∅ ops)) /\
+    render s' = Ok (Io.images m') /\ wf_state s' /\ represents s' (fst (spec_run ∅ ops)).
+Proof. exact Io_history_from_create. Qed.
